@@ -4,6 +4,7 @@ package readline
 
 import (
 	"os"
+	"strings"
 	"path/filepath"
 	"testing"
 )
@@ -346,5 +347,35 @@ func TestVerifFindingNumberedRegisterWrite(t *testing.T) {
 	rl.Buffers.SetActive('3')
 	if got := string(rl.Buffers.Active()); got != "hello" {
 		t.Errorf("register \"3 after WriteTo('3', hello): %q, want %q", got, "hello")
+	}
+}
+
+// C19 (dump-variables in inputrc format must parse back to the same configuration): boolean variables were
+// printed with %v ("true" / "false"), but the parser only reads "on" / "1" as true: every variable that is on
+// came back off.
+func TestVerifFindingC19DumpVariablesBooleans(t *testing.T) {
+	rl := NewShell()
+	rl.init()
+	rl.Config.Set("blink-matching-paren", true)
+	rl.Iterations.Add("1") // numeric argument: inputrc format
+	r, w, _ := os.Pipe()
+	oldOut := os.Stdout
+	os.Stdout = w
+	func() {
+		defer func() { recover() }() // the redisplay after the dump has no terminal here
+		rl.dumpVariables()
+	}()
+	w.Close()
+	os.Stdout = oldOut
+	buf := make([]byte, 1<<16)
+	n, _ := r.Read(buf)
+	out := string(buf[:n])
+	if !strings.Contains(out, "set blink-matching-paren on") {
+		idx := strings.Index(out, "set blink-matching-paren")
+		line := ""
+		if idx >= 0 {
+			line = strings.SplitN(out[idx:], "\n", 2)[0]
+		}
+		t.Errorf("dump-variables prints %q, which the parser reads back as off; want \"set blink-matching-paren on\"", line)
 	}
 }
